@@ -180,4 +180,61 @@ theorem C04_wait_hist_kept (cfg : Cfg) (s s' : RSt) (ev : REv) (a : RAns) (out :
       · injection h with h; injection h with h1 _; subst h1; exact Or.inr hid
       · injection h with h; injection h with h1 _; subst h1; exact Or.inr (List.mem_append_left _ hid)
 
+/-- `is_historical_data_received` of the reader = of EVERY matched writer proxy; with no matched writer it holds -/
+theorem histReceivedAll_iff (ps : List WProxy) : histReceivedAll ps = true ↔ ∀ p, p ∈ ps → proxyHistReceived p = true := by
+  unfold histReceivedAll
+  simp only [Bool.not_eq_true', List.any_eq_false, proxyHistMissing, Bool.not_eq_true']
+  constructor
+  · intro h p hp
+    have := h p hp
+    cases hb : proxyHistReceived p <;> simp_all
+  · intro h p hp
+    simp [h p hp]
+
+/-- **C04_wait_hist_all_writers**: with any number of matched writers, a `wait_for_historical_data` caller is answered
+    `Ok` only at a step after which `is_historical_data_received` holds for EVERY matched writer proxy (each one has
+    processed a heartbeat and misses nothing — with `C04_hist_received_sound`, applied per writer: has the history that
+    writer announced); with no matched writer it is answered at once; a VOLATILE reader is never answered `Ok`. -/
+theorem C04_wait_hist_all_writers (cfg : Cfg) (s s' : MSt) (ev : MEv) (ids : List Nat) (out : List Dgram) (id : Nat)
+    (h : mstep cfg s ev = .ok (s', .ok ids, out)) (hid : id ∈ ids) :
+    ∀ p, p ∈ s'.proxies → proxyHistReceived p = true := by
+  have key : histReceivedAll s'.proxies = true := by
+    cases ev with
+    | matchWriter wid =>
+      simp only [mstep] at h
+      split at h <;> (injection h with h; injection h with _ h2; injection h2 with h2 _; cases h2)
+    | sub wid m =>
+      simp only [mstep] at h
+      split at h
+      · injection h with h; injection h with _ h2; injection h2 with h2 _; cases h2
+      · split at h
+        · cases h
+        · split at h
+          · rename_i hc
+            injection h with h; injection h with h1 _; subst h1
+            exact hc.2
+          · injection h with h; injection h with _ h2; injection h2 with h2 _; cases h2
+    | waitHist w =>
+      simp only [mstep] at h
+      split at h
+      · injection h with h; injection h with _ h2; injection h2 with h2 _; cases h2
+      · split at h
+        · rename_i hh
+          injection h with h; injection h with h1 _; subst h1; exact hh
+        · injection h with h; injection h with _ h2; injection h2 with h2 _; cases h2
+  exact (histReceivedAll_iff _).mp key
+
+/-- no matched writer: answered at once (TRANSIENT_LOCAL reader) -/
+theorem C04_wait_hist_no_writer (cfg : Cfg) (rel : Bool) (ws : List Nat) (id : Nat) :
+    mstep cfg { ws := [], reliable := rel, volatile := false, waiters := ws } (.waitHist id) =
+      .ok ({ ws := [], reliable := rel, volatile := false, waiters := ws }, .ok [id], []) := by
+  simp [mstep, MSt.proxies, histReceivedAll]
+
+/-- the seeded simplification `any(|p| p.is_historical_data_received())` is NOT equivalent: one writer complete, one not -/
+theorem C04_any_writer_is_not_enough_counterexample :
+    let done : WProxy := { WProxy.new with lastHbCount := 1, lastAvail := 1, highestRecv := 1 }
+    let open_ : WProxy := { WProxy.new with lastHbCount := 1, lastAvail := 2, highestRecv := 0 }
+    histReceivedAll [done, open_] = false ∧ [done, open_].any proxyHistReceived = true ∧
+    histReceivedAll [] = true ∧ ([] : List WProxy).any proxyHistReceived = false := by decide
+
 end DustVerif.Rtps
